@@ -7,7 +7,10 @@ package security
 // of the timestamp is replaced by its contract (an arbitrary int64 or an error).
 
 import (
+	"bytes"
 	"errors"
+	"hash"
+	"io"
 	"net/http"
 	"net/url"
 	"time"
@@ -53,9 +56,9 @@ func c18BodySig(r *http.Request) string { return c18.digest }
 //verif:stub strconv.ParseInt c18ParseInt
 //verif:stub strings.Join c18Join
 //verif:stub github.com/zeromicro/go-zero/core/codec.HmacBase64 c18Hmac
-//verif:stub github.com/zeromicro/go-zero/rest/internal/security.computeBodySignature c18BodySig
 
 //verif:entry tier=quick,thorough steps=2000000 cover=pass,wrongtime,badheader,badtoken,wraphigh,wraplow
+//verif:stub github.com/zeromicro/go-zero/rest/internal/security.computeBodySignature c18BodySig
 //verif:doc VerifySignature with the timestamp any int64 (or unparsable), now in {0, 1.7e9, 2^33} s, tolerance in {0, 1, 300, 2^31} whole seconds, method/path/query/timestamp/signature/body digest as atoms: invalid-header iff the timestamp does not parse; otherwise wrong-time iff |timestamp - now| > tolerance as mathematical integers (no wrap-around admits a far-away timestamp); otherwise pass iff the presented signature equals the HMAC, which is computed over exactly (timestamp, method, path, raw query, body digest) joined by newlines under the header's key.
 func Verif_C18_VerifySignature() {
 	c18.joined, c18.macRuns = nil, 0
@@ -97,5 +100,52 @@ func Verif_C18_VerifySignature() {
 			rt.Cover("badtoken")
 			rt.Assert(sig != c18.mac, "a signature equal to the HMAC passes")
 		}
+	}
+}
+
+// ---------- body digest: SHA-256 replaced by a recording hash
+
+type c18Hash struct{ fed []byte }
+
+func (h *c18Hash) Write(p []byte) (int, error) { h.fed = append(h.fed, p...); return len(p), nil }
+func (h *c18Hash) Sum(b []byte) []byte         { return append(b, 0xD1, 0x6E) }
+func (h *c18Hash) Reset()                      { h.fed = nil }
+func (h *c18Hash) Size() int                   { return 2 }
+func (h *c18Hash) BlockSize() int              { return 64 }
+
+var c18LastHash *c18Hash
+
+func c18NewHash() hash.Hash {
+	c18LastHash = &c18Hash{}
+	return c18LastHash
+}
+
+//verif:entry tier=quick,thorough steps=2000000 cover=known,chunked,empty
+//verif:stub crypto/sha256.New c18NewHash
+//verif:doc computeBodySignature with SHA-256 replaced by a recording hash: for a body of 0..3 arbitrary bytes, with the declared Content-Length equal to the body length or unknown (-1, chunked transfer), exactly the body's bytes are digested, in order, and the same bytes are still readable from r.Body afterwards.
+func Verif_C18_BodyDigest() {
+	n := rt.Choose("len", 4)
+	body := rt.Bytes("body", n)
+	cl := int64(n)
+	if rt.Choose("chunked", 2) == 1 {
+		cl = -1
+		rt.Cover("chunked")
+	} else {
+		rt.Cover("known")
+	}
+	if n == 0 {
+		rt.Cover("empty")
+	}
+	r := &http.Request{Method: "POST", Header: http.Header{}, ContentLength: cl, Body: io.NopCloser(bytes.NewReader(append([]byte{}, body...)))}
+	c18LastHash = nil
+	computeBodySignature(r)
+	rt.Assert(c18LastHash != nil && len(c18LastHash.fed) == n, "the digest covers the whole body, whatever Content-Length says")
+	for i := 0; c18LastHash != nil && i < n && i < len(c18LastHash.fed); i++ {
+		rt.Assert(c18LastHash.fed[i] == body[i], "the digest is computed over the body's bytes in order")
+	}
+	rest, err := io.ReadAll(r.Body)
+	rt.Assert(err == nil && len(rest) == n, "the body is still fully readable by the handler after the digest was taken")
+	for i := 0; i < n && i < len(rest); i++ {
+		rt.Assert(rest[i] == body[i], "the handler reads the same bytes that were digested")
 	}
 }
